@@ -9,7 +9,7 @@ import ast
 from ..index import u, call_name, call_attr, walk_local, base_name
 from .. import flow
 from ..fold import try_fold
-from ..util import stmts_with_env, param_defaults, assignments_to
+from ..util import stmts_with_env, param_defaults, assignments_to, kwarg
 from .common import guarded_by_raise, has_atom, unconditional_in
 
 LH = 'vermouth/log_helpers.py'
@@ -457,5 +457,16 @@ def run(ck):
     ck.ob('PROV-maxwarn', cli.loc(mw), ok, 'the warning type is handed on exactly as written on the command line ({}), no normalisation'.format(types), key='PROV-maxwarn|raw-type')
     ends = [s for s in mw.body if isinstance(s, ast.Raise)]
     ck.ob('PROV-maxwarn', cli.loc(mw), len(ends) == 1 and mw.body[-1] is ends[0], 'anything else is an argparse error', key='PROV-maxwarn|raise')
+    # the CLI hands every specification that was typed to the allowance function, as parsed: nothing merged, keyed or re-ordered in between
+    ent = cli.func('entry')
+    ck.analysed(cli, ent)
+    calls = [c for c in walk_local(ent) if isinstance(c, ast.Call) and call_name(c) == 'ignore_warnings_and_count']
+    ok = len(calls) == 1 and [u(a) for a in calls[0].args] == ['COUNTER', 'args.maxwarn'] and not calls[0].keywords and \
+        not [n for n in walk_local(ent) if isinstance(n, (ast.Assign, ast.AugAssign)) and any('args.maxwarn' in u(t) for t in (n.targets if isinstance(n, ast.Assign) else [n.target]))]
+    adds = [c for c in ast.walk(cli.tree) if isinstance(c, ast.Call) and call_attr(c) == 'add_argument' and c.args and try_fold(c.args[0]) == '-maxwarn']
+    ok_arg = len(adds) == 1 and u(kwarg(adds[0], 'type')) == 'maxwarn' and try_fold(kwarg(adds[0], 'dest')) == 'maxwarn' and try_fold(kwarg(adds[0], 'action'), default=None) == 'append' and \
+        try_fold(kwarg(adds[0], 'nargs'), default=None) == '+' and try_fold(kwarg(adds[0], 'default'), default=None) in ([], ())
+    ck.ob('PROV-maxwarn', cli.loc(calls[0]) if calls else CLI, ok and ok_arg, 'every -maxwarn entry typed on the command line (repeated options appended, several values per option) reaches '
+          'ignore_warnings_and_count(COUNTER, args.maxwarn) as parsed by maxwarn(); nothing collapses repeated entries before the "largest limit" rule is applied', key='PROV-maxwarn|cli-raw')
     ck.assume('exact equality with the stated formula (largest limit, blanket consumption order) is not decided; '
               'counts are assumed non-negative (they are numbers of records)')
